@@ -680,4 +680,44 @@ example : SameUpToHook (attributes (mkHTMLFormatter {}))
     (.tag [112] [] [([98], .str [49]), ([97], .none)] false false []) (.tag [112] [] [([97], .none), ([98], .str [49])] false false []) :=
   .tag _ _ _ _ _ _ _ _ (by decide) .nil
 
+/-! ## the hypotheses of the theorems above are satisfiable (instantiations on concrete, non-trivial data) -/
+
+def attrsBA : List (PStr × AttrVal) := [([98], .str [49]), ([97], .none), ([99], .list [[120], [121]])]
+def attrsAB : List (PStr × AttrVal) := [([97], .none), ([98], .str [49]), ([99], .list [[120], [121]])]
+
+example := attrs_sorted (mkHTMLFormatter {}) builtin none [112] [] attrsBA attrsAB false false [] (List.Perm.swap _ _ _) (by decide)
+example := canon_perm [112] [] attrsBA attrsAB false false [sample] (List.Perm.swap _ _ _) (by decide)
+example := attrs_sorted_deep (mkXMLFormatter {}) builtin none _ _ (canon_perm [112] [] attrsBA attrsAB false false [sample] (List.Perm.swap _ _ _) (by decide))
+example := base_attributes_ignore_insertion_order (mkHTMLFormatter {}) attrsBA attrsAB (List.Perm.swap _ _ _) (by decide)
+example := regex_order_irrelevant BS.Gen.htmlAlts.reverse (List.reverse_perm _) [8807, 824]
+example := hash_seed_independent BS.Gen.htmlAlts.reverse (List.reverse_perm _) (mkHTMLFormatter { entity_substitution := .html })
+  [STYLE, SCRIPT] (List.Perm.swap _ _ _) builtin none [112] [] attrsBA attrsAB false false [sample] (List.Perm.swap _ _ _) (by decide)
+example := custom_subst_scope (mkXMLFormatter { entity_substitution := .custom 3 }) bracket (by decide) none sample
+example := custom_subst_scope_pretty (mkXMLFormatter { entity_substitution := .custom 3 }) bracket (by decide) 2 none sample
+example := lookup_html (some N_minimal) _ (by decide : lookup BS.Gen.fmtHtmlRegistry (some N_minimal) = .ok (mkHTMLFormatter { entity_substitution := .xml })) builtin .decode none sample
+example := lookup_xml none _ (by decide : lookup BS.Gen.fmtXmlRegistry none = .ok (mkXMLFormatter {})) builtin (.pretty 1) none sample
+example := duplicate_free_start_tag .ignore [([98], some [49]), ([97], none)] (by decide)
+
+/-- `htmlish'` lists the same sets and the same dict in another order -/
+theorem htmlish_equiv : BuilderEquiv htmlish' htmlish :=
+  builderEquiv_of_perm htmlish _ _ _ (List.Perm.swap _ _ _) (List.Perm.refl _) (List.reverse_perm _) (by decide)
+
+def rawBA : RawNode := .tag [112] [([98], some [49]), ([97], none)] [.tag [98, 114] [([99, 108, 97, 115, 115], some [120, 32, 121])] [], .str .text [8807, 824]]
+def rawAB : RawNode := .tag [112] [([97], none), ([98], some [49])] [.tag [98, 114] [([99, 108, 97, 115, 115], some [120, 32, 121])] [], .str .text [8807, 824]]
+
+/-- two parses of `<p …><br class="x y">≧̸</p>` that list the attributes of `p` in different orders -/
+theorem rawBA_AB : SameUpToAttrOrder rawBA rawAB :=
+  .tag _ _ _ _ _ (List.Perm.swap _ _ _) (by decide)
+    (.cons _ _ _ _ (.tag _ _ _ _ _ (List.Perm.refl _) (by decide) .nil) (.cons _ _ _ _ (.str _ _) .nil))
+
+example := builder_sets_are_sets htmlish' htmlish htmlish_equiv rawBA
+example := source_attr_order_irrelevant htmlish (mkHTMLFormatter { entity_substitution := .html }) builtin (.pretty 0) none rawBA rawAB rawBA_AB
+example := output_is_function_of_tree_and_configuration BS.Gen.htmlAlts.reverse (List.reverse_perm _) htmlish' htmlish htmlish_equiv
+  (mkHTMLFormatter { entity_substitution := .html }) [STYLE, SCRIPT] (SetEq.of_perm (List.Perm.swap _ _ _)) builtin (.pretty 0) none rawBA rawAB rawBA_AB
+
+/-- relisting the look-ahead classes (here: reversed) and the alternatives (here: reversed) of the live construction -/
+example := populate_order_irrelevant_live (fun a => { a with notNext := a.notNext.reverse }) (fun _ => rfl) (fun _ => rfl)
+  (fun _ _ => List.mem_reverse) _ (List.reverse_perm _) [8810, 824, 8810, 8402]
+example := populate_exclusive tinyTable [] (tableOKChk_sound _ (by decide))
+
 end BS.Props.C15
